@@ -180,6 +180,11 @@ static std::string judge1(const Kernel& K, const std::string& in, int place, siz
     WriteBuffer wb;
     if (d.Serialize(wb) != kErrorNone) return "Serialize of a string node failed";
     if (wb.Size() != n || memcmp(wb.ToString(), first.data(), n) != 0) return "Serialize of the string differs from Quote";
+    // ... and again into that buffer after its contents were moved away by a move-assignment
+    WriteBuffer keep;
+    keep = std::move(wb);
+    if (d.Serialize(wb) != kErrorNone) return "Serialize of a string node into a moved-from write buffer failed";
+    if (wb.Size() != n || memcmp(wb.ToString(), first.data(), n) != 0) return "Serialize of the string into a moved-from write buffer differs from Quote";
   }
   return "";
 }
